@@ -1,4 +1,4 @@
-PROPS = ["CTV.Props.C06", "CTV.Lemmas.FrontEnd"]
+PROPS = ["CTV.Props.C06", "CTV.Lemmas.FrontEnd", "CTV.Model.HandlerSpec"]
 HARNESS = [dict(pkg="./trillian/ctfe/", test="TestVerifC06", race=True)]
 RULE = ("histories against a full ctfe instance (newLogInfo + Handlers, all eight endpoints, in-memory transport) over the reference backend "
         "verifkit.RefLog, driven through client.LogClient and ctutil.LogInfo: add-chain / add-pre-chain of freshly issued certificates "
@@ -6,7 +6,7 @@ RULE = ("histories against a full ctfe instance (newLogInfo + Handlers, all eigh
         "nanosecond root timestamps that are not multiples of a millisecond, get-sth, get-sth-consistency between pairs of served STHs, "
         "get-proof-by-hash with the client-computed leaf hash (present and not-yet-sequenced), get-entries at the found index, "
         "get-entry-and-proof, get-roots; mid-history 8 concurrent verifying readers (race detector) while the writer submits and sequences; twice per history an STH hammer: 32 concurrent get-sth callers x 15000/6000 requests while the root changes every 1-6 served STHs (new leaf or timestamp-only), each STH verified under the log key and matched to a backend root current during the call; "
-        "same-millisecond submissions incl. a precertificate and its re-signed twin (finding C06-1), duplicates through another intermediate certificate, 3-8 concurrent add-chain calls incl. the same chain twice; closing sweep: all pairs of served tree sizes, every SCT'd certificate. non-trivial = distinct lines not answered `err`")
+        "same-millisecond submissions incl. a precertificate and its re-signed twin (finding C06-1), duplicates through another intermediate certificate, 3-8 concurrent add-chain calls incl. the same chain twice; 12/120 external-chain-storage scenarios (indirect issuance-chain service over a fault-injecting storage, retry until SCT, read from a second front end with a cold cache); closing sweep: all pairs of served tree sizes, every SCT'd certificate. non-trivial = distinct lines not answered `err`")
 TRUSTED = ["ct.MerkleTreeLeafFromChain for the (issuer key hash, TBS) of a precertificate fed to the model (C03's subject; the issuer key hash is re-checked)", "verifkit.RefLog stands in for Trillian (its contract is the model's Backend)", "net/http, encoding/json, base64, crypto/ecdsa, crypto/x509 (test PKI)",
            "tls.Marshal of MerkleTreeLeaf / chain entries (C04/C07's subject): the harness builds the expected leaf with the repo's own serializer",
            "github.com/transparency-dev/merkle (tied to the Lean verifiers by the C19 check)"]
